@@ -22,6 +22,7 @@ HEALTHY = {
 FAULTS = {
     "unknown-module": ("nomod", "some_test", dict(a=1)),
     "unknown-test": ("qartod", "not_a_test", dict(a=1)),
+    "unknown-test-odd-name": ("qartod", "gross-range test", dict(a=1)),   # an unknown name that is not even an identifier
     "rejected-params": ("qartod", "attenuated_signal_test", dict(suspect_threshold=1, fail_threshold=0.5, check_type="nope")),
     "rejected-span": ("qartod", "location_test", dict(bbox=[0, 1, 2])),
     "missing-input": ("qartod", "climatology_test", dict(config=[dict(tspan=[1, 12], period="month", vspan=[0, 5])])),
